@@ -1059,9 +1059,8 @@ func (c *Conn) writeRequest(ctx *Ctx) error {
 
 	if hasBody {
 		pb := &pendingBody{
-			ctx:    ctx,
-			window: c.streamWindow,
-			size:   -1,
+			ctx:  ctx,
+			size: -1,
 		}
 
 		if bodyStream {
@@ -1074,7 +1073,11 @@ func (c *Conn) writeRequest(ctx *Ctx) error {
 			pb.body = req.Body()
 		}
 
+		// The window is read in the same critical section as the insert: a
+		// SETTINGS_INITIAL_WINDOW_SIZE applied in between would change
+		// streamWindow and adjust every pending body but this one.
 		c.sendLck.Lock()
+		pb.window = c.streamWindow
 		c.pending[id] = pb
 		c.sendLck.Unlock()
 	}
